@@ -193,6 +193,13 @@ pub fn corpus(tier: Tier) -> Vec<String> {
             out.push(mixed.join(" -o "));
         }
     }
+    // 5a'. an option word after k primaries (its token index grows)
+    for k in (1..=130usize).chain([255, 256, 257, 300]) {
+        let pre = vec!["-true"; k].join(" ");
+        out.push(format!("{pre} -depth"));
+        out.push(format!("{pre} -threads 3 -print"));
+        out.push(format!("{pre} -o -depth"));
+    }
     // 5b. a multi-byte character at every byte offset 0..=128 of a long word, in every position
     // a word can take (unknown word, bad argument of each argument language, good string argument)
     for off in 0..=128usize {
